@@ -132,6 +132,12 @@ def curated_items():
         "t1": T(items=2, conc=1, next=[dict(when="succeeded", do=["t3"])]),
         "t2": T(next=[dict(when="failed", do=["t4"]), dict(when="succeeded", do=["t3"])]),
         "t3": T(), "t4": T()}, fates={"t1": ["s"], "t2": A, "t3": ["s"], "t4": ["s"]}))
+    out.append(D.wf("items_abends", {
+        "t1": T(items=2, next=[dict(when="succeeded", do=["t2"])]), "t2": T()},
+        fates={"t1": ["s", "t", "a"], "t2": ["s"]}))
+    out.append(D.wf("items_abends_conc", {
+        "t1": T(items=3, conc=2, next=[dict(when="succeeded", do=["t2"])]), "t2": T()},
+        fates={"t1": ["s", "f", "t"], "t2": ["s"]}))
     out.append(D.wf("items_retry", {
         "t1": T(items=2, retry={"count": 1}, next=[dict(when="succeeded", do=["t2"])]),
         "t2": T()}, fates={"t1": A, "t2": ["s"]}))
@@ -163,6 +169,12 @@ def curated_retry():
         "t2": T(next=[dict(do=["t4"])]), "t3": T(next=[dict(do=["t4"])]),
         "t4": T(retry={"count": 1}, next=[dict(when="succeeded", do=["noop"])])},
         fates={"t1": ["s"], "t2": ["s"], "t3": ["s"], "t4": A}))
+    # a join: 1 target with a retry policy: a second inbound branch can arrive while the retry is staged
+    out.append(D.wf("retry_join1", {
+        "t1": T(next=[dict(when="succeeded", pub=[["x", "res"]], do=["t3"])]),
+        "t2": T(next=[dict(when="succeeded", pub=[["y", "res"]], do=["t3"])]),
+        "t3": T(join=1, retry={"count": 1}, next=[dict(when="succeeded", do=["noop"])])},
+        vars=[["x", 0], ["y", 0]], output=[["ox", "ctx:x"], ["oy", "ctx:y"]], fates={"t1": ["s"], "t2": ["s"], "t3": A}))
     out.append(D.wf("retry_unhandled", {
         "t1": T(retry={"count": 1}), }, fates={"t1": A}))
     return out
